@@ -158,7 +158,9 @@ def create_database(
     file_hash_path = _get_file_hash_path(cmd.zettel_dir)
     file_to_hash = _get_file_hash_map(cmd.zettel_dir)
     _write_file_hash_to_disk(file_hash_path, file_to_hash)
-    error_file_whitelist.write_text("\n".join(sorted(error_files)))
+    c.write_text_atomically(
+        error_file_whitelist, "\n".join(sorted(error_files))
+    )
     session.commit()
 
 
@@ -245,7 +247,9 @@ def reindex_database(
         c.zprint("NO ZORG FILES HAVE BEEN MODIFIED")
 
     _write_file_hash_to_disk(file_hash_path, file_to_hash)
-    error_file_whitelist.write_text("\n".join(sorted(error_files)))
+    c.write_text_atomically(
+        error_file_whitelist, "\n".join(sorted(error_files))
+    )
     session.commit()
 
 
@@ -329,8 +333,9 @@ def _write_file_hash_to_disk(
     file_hash_path: Path, file_to_hash: dict[str, str]
 ) -> None:
     _LOGGER.debug("Writing hash map to disk", file=str(file_hash_path))
-    with file_hash_path.open("w") as f:
-        json.dump(dict(sorted(file_to_hash.items())), f, indent=4)
+    c.write_text_atomically(
+        file_hash_path, json.dumps(dict(sorted(file_to_hash.items())), indent=4)
+    )
 
 
 def _add_zid_to_line(zid: str, line: str) -> str:
@@ -476,7 +481,7 @@ def _update_zo_file(
         zorg_page=str(zo_path),
         notes_to_update=len(notes_to_update),
     )
-    zo_path.write_text("\n".join(zlines))
+    c.write_text_atomically(zo_path, "\n".join(zlines))
     if not is_last_rewrite:
         return
 
